@@ -135,6 +135,8 @@ class _StmtCanon(ast.NodeTransformer):
             # (lambda c: body)(x) -> body[c := x]
             m = {p.arg: a for p, a in zip(n.func.args.args, n.args)}
             return self.visit(ast.copy_location(_Subst(m).visit(copy.deepcopy(n.func.body)), n))
+        if ast.unparse(n.func) in ("cast", "typing.cast", "t.cast") and len(n.args) == 2 and not n.keywords:
+            return n.args[1]  # typing.cast(T, x) is x
         if isinstance(n.func, ast.Name) and n.func.id == "getattr" and len(n.args) == 2 and not n.keywords \
                 and isinstance(n.args[1], ast.Constant) and isinstance(n.args[1].value, str) and n.args[1].value.isidentifier():
             return ast.copy_location(ast.Attribute(value=n.args[0], attr=n.args[1].value, ctx=ast.Load()), n)
@@ -207,6 +209,11 @@ class _StmtCanon(ast.NodeTransformer):
         return node
 
     def _one(self, st, before):
+        # `x: T = v` inside a function is `x = v`
+        if isinstance(st, ast.AnnAssign) and self.depth and st.value is not None and st.simple and isinstance(st.target, ast.Name):
+            return self._one(ast.copy_location(ast.Assign(targets=[st.target], value=st.value), st), before)
+        if isinstance(st, ast.AnnAssign) and self.depth and st.value is None:
+            return []  # a bare declaration
         # setattr(o, "name", v) as a statement
         if isinstance(st, ast.Expr) and isinstance(st.value, ast.Call) and isinstance(st.value.func, ast.Name) \
                 and st.value.func.id == "setattr" and len(st.value.args) == 3 and not st.value.keywords \
@@ -234,7 +241,7 @@ class _StmtCanon(ast.NodeTransformer):
         if isinstance(st, ast.Match) and self.depth:
             chain = _match_to_if(st)
             if chain is not None:
-                return self._one(chain, before)
+                return self._stmts([ast.fix_missing_locations(x) for x in chain])
         # table-driven loop over a literal
         if isinstance(st, ast.For) and not st.orelse and self.depth:
             un = self._unroll(st, before)
@@ -302,10 +309,15 @@ class _StmtCanon(ast.NodeTransformer):
 
 
 def _match_to_if(m: ast.Match):
+    """[statements] equivalent to a `match` whose patterns are literals, or-patterns of literals, `cls()` class patterns of a
+    builtin type, a bare capture name or the wildcard; None for anything else (sequence / mapping / nested patterns, guards)."""
     subj = m.subject
+    pre = []
     simple = isinstance(subj, (ast.Name, ast.Constant)) or (isinstance(subj, ast.Attribute) and isinstance(subj.value, ast.Name))
     if not simple:
-        return None
+        tmp = f"match_subject__{next(_ctr)}"
+        pre.append(ast.copy_location(ast.Assign(targets=[ast.Name(id=tmp, ctx=ast.Store())], value=subj), m))
+        subj = ast.Name(id=tmp, ctx=ast.Load())
 
     def test_of(pat):
         if isinstance(pat, ast.MatchValue) and isinstance(pat.value, ast.Constant):
@@ -314,6 +326,9 @@ def _match_to_if(m: ast.Match):
             return ast.Compare(left=copy.deepcopy(subj), ops=[ast.Is()], comparators=[ast.Constant(value=pat.value)])
         if isinstance(pat, ast.MatchOr) and all(isinstance(p, ast.MatchValue) and isinstance(p.value, ast.Constant) for p in pat.patterns):
             return ast.Compare(left=copy.deepcopy(subj), ops=[ast.In()], comparators=[ast.Tuple(elts=[p.value for p in pat.patterns], ctx=ast.Load())])
+        if isinstance(pat, ast.MatchClass) and not pat.patterns and not pat.kwd_patterns and isinstance(pat.cls, ast.Name) \
+                and pat.cls.id in ("str", "int", "float", "bool", "bytes", "list", "tuple", "dict", "set"):
+            return ast.Call(func=ast.Name(id="isinstance", ctx=ast.Load()), args=[copy.deepcopy(subj), ast.Name(id=pat.cls.id, ctx=ast.Load())], keywords=[])
         return None
 
     head = None
@@ -321,11 +336,14 @@ def _match_to_if(m: ast.Match):
     for case in m.cases:
         if case.guard is not None:
             return None
-        if isinstance(case.pattern, ast.MatchAs) and case.pattern.pattern is None and case.pattern.name is None:
+        if isinstance(case.pattern, ast.MatchAs) and case.pattern.pattern is None:
+            body = list(case.body)
+            if case.pattern.name is not None:  # `case name:` binds the subject and always matches
+                body = [ast.copy_location(ast.Assign(targets=[ast.Name(id=case.pattern.name, ctx=ast.Store())], value=copy.deepcopy(subj)), case.body[0])] + body
             if cur is None:
-                return None
-            cur.orelse = list(case.body)
-            return ast.fix_missing_locations(ast.copy_location(head, m))
+                return pre + body
+            cur.orelse = body
+            return pre + [ast.fix_missing_locations(ast.copy_location(head, m))]
         t = test_of(case.pattern)
         if t is None:
             return None
@@ -335,7 +353,7 @@ def _match_to_if(m: ast.Match):
         else:
             cur.orelse = [node]
         cur = node
-    return ast.fix_missing_locations(ast.copy_location(head, m)) if head is not None else None
+    return pre + [ast.fix_missing_locations(ast.copy_location(head, m))] if head is not None else None
 
 
 def _pure_elem(e) -> bool:
@@ -424,6 +442,33 @@ def canonical_stmts(tree: ast.Module) -> ast.Module:
             elif isinstance(val, ast.Call) and ast.unparse(val.func).split(".")[-1] == "get_args" and len(val.args) == 1 \
                     and isinstance(val.args[0], ast.Name) and val.args[0].id in literal_alias:
                 consts[tgt.id] = literal_alias[val.args[0].id]
+    # `class _Layout: CONFIG_FILE = "config.yaml"` - a namespace class of literal constants: `_Layout.CONFIG_FILE` is the literal
+    ns_consts: dict[tuple[str, str], ast.AST] = {}
+    for node in tree.body:
+        if isinstance(node, ast.ClassDef) and not node.decorator_list and not node.keywords \
+                and all(ast.unparse(b) in ("object",) for b in node.bases):
+            members = [b for b in node.body if not (isinstance(b, ast.Expr) and isinstance(b.value, ast.Constant)) and not isinstance(b, ast.Pass)]
+            if members and all((isinstance(b, ast.Assign) and len(b.targets) == 1 and isinstance(b.targets[0], ast.Name) and _is_literal(b.value))
+                               or (isinstance(b, ast.AnnAssign) and isinstance(b.target, ast.Name) and b.value is not None and _is_literal(b.value))
+                               for b in members):
+                for b in members:
+                    tgt_ = b.targets[0] if isinstance(b, ast.Assign) else b.target
+                    ns_consts[(node.name, tgt_.id)] = b.value
+    if ns_consts:
+        stores = {(n.value.id, n.attr) for n in ast.walk(tree) if isinstance(n, ast.Attribute) and isinstance(n.ctx, (ast.Store, ast.Del))
+                  and isinstance(n.value, ast.Name)}
+
+        class _NS(ast.NodeTransformer):
+            def visit_Attribute(self, n):
+                self.generic_visit(n)
+                if isinstance(n.ctx, ast.Load) and isinstance(n.value, ast.Name) and (n.value.id, n.attr) in ns_consts \
+                        and (n.value.id, n.attr) not in stores:
+                    return ast.copy_location(copy.deepcopy(ns_consts[(n.value.id, n.attr)]), n)
+                return n
+
+        for i_, node in enumerate(tree.body):
+            if isinstance(node, (ast.FunctionDef, ast.ClassDef)) and not (isinstance(node, ast.ClassDef) and any(k[0] == node.name for k in ns_consts)):
+                tree.body[i_] = _NS().visit(node)
     # a constant that any function rebinds through `global` is not a constant
     for n in ast.walk(tree):
         if isinstance(n, ast.Global):
@@ -506,6 +551,16 @@ def _elim_returns(stmts, res: str | None):
     return out
 
 
+def _transparent_decorator(d: ast.AST) -> bool:
+    """memoisation / compilation wrappers do not change what a pure helper returns"""
+    src = ast.unparse(d.func if isinstance(d, ast.Call) else d)
+    if src in ("lru_cache", "functools.lru_cache", "cache", "functools.cache", "jax.jit", "jit"):
+        return True
+    if isinstance(d, ast.Call) and src in ("partial", "functools.partial") and d.args and ast.unparse(d.args[0]) in ("jax.jit", "jit"):
+        return True
+    return False
+
+
 class Inliner:
     def __init__(self, ct, max_depth: int = 3):
         self.ct = ct
@@ -560,7 +615,7 @@ class Inliner:
     def _inlinable(self, fn: ast.FunctionDef) -> bool:
         if fn.name in self.anchors or fn.name.startswith("__"):
             return False
-        decos = [ast.unparse(d) for d in fn.decorator_list]
+        decos = [ast.unparse(d) for d in fn.decorator_list if not _transparent_decorator(d)]
         if any(d not in ("staticmethod", "classmethod") for d in decos):
             return False
         a = fn.args
@@ -584,7 +639,7 @@ class Inliner:
         k, fn, recv = r
         if not self._inlinable(fn):
             return None
-        decos = [ast.unparse(d) for d in fn.decorator_list]
+        decos = [ast.unparse(d) for d in fn.decorator_list if not _transparent_decorator(d)]
         params = [a.arg for a in fn.args.args]
         defaults = dict(zip(params[len(params) - len(fn.args.defaults):], fn.args.defaults))
         kwonly = [a.arg for a in fn.args.kwonlyargs]
@@ -704,7 +759,7 @@ class Inliner:
             return None
         if _contains(body, (ast.Lambda, ast.ListComp, ast.SetComp, ast.DictComp, ast.GeneratorExp, ast.NamedExpr)):
             return None
-        decos = [ast.unparse(d) for d in fn.decorator_list]
+        decos = [ast.unparse(d) for d in fn.decorator_list if not _transparent_decorator(d)]
         params = [a.arg for a in fn.args.args]
         defaults = dict(zip(params[len(params) - len(fn.args.defaults):], fn.args.defaults))
         mapping: dict[str, ast.AST] = {}
